@@ -73,12 +73,34 @@ func libraryThreads(live []string) []string {
 		if i := strings.Index(t, ": "); i > 0 {
 			site = t[:i]
 		}
-		if strings.HasPrefix(site, "session.go:") { // the session sweeper lives as long as the server object
-			continue
-		}
 		if strings.HasSuffix(strings.SplitN(site, ":", 2)[0], ".go") {
 			out = append(out, t)
 		}
+	}
+	return out
+}
+
+// threadsSince returns the library threads of now that were not already alive in base (compared
+// by creation site, as a multiset): daemons a server starts for its own lifetime (session sweeper,
+// ...) are part of the base whatever file they live in.
+func threadsSince(base, now []string) []string {
+	site := func(t string) string {
+		if i := strings.Index(t, ": "); i > 0 {
+			return t[:i]
+		}
+		return t
+	}
+	have := map[string]int{}
+	for _, t := range base {
+		have[site(t)]++
+	}
+	var out []string
+	for _, t := range now {
+		if have[site(t)] > 0 {
+			have[site(t)]--
+			continue
+		}
+		out = append(out, t)
 	}
 	return out
 }
@@ -101,14 +123,14 @@ func c08Run(prefix []int, cfg c08Cfg) explore.Outcome {
 			return mcp.NewTextResult("echo:" + n), nil
 		})
 		r.Start()
+		vsched.Quiesce()
+		srvBase := libraryThreads(vsched.LiveThreads()) // what the server runs for its own lifetime, before any peer
 		cl, err := r.Connect()
 		if err != nil {
 			viol = append(viol, V("setup-handshake-fails", "setting the scenario up with well-behaved peers fails: %v", err))
 			return
 		}
 		vsched.Quiesce()
-		baseline := libraryThreads(vsched.LiveThreads())
-		_ = baseline
 		vsched.SetBranching(true)
 
 		type callRec struct {
@@ -221,7 +243,7 @@ func c08Run(prefix []int, cfg c08Cfg) explore.Outcome {
 			c.cancel()
 		}
 		vsched.Quiesce()
-		if leaked := libraryThreads(vsched.LiveThreads()); len(leaked) > 0 && cfg.Mode != "io" {
+		if leaked := threadsSince(srvBase, libraryThreads(vsched.LiveThreads())); len(leaked) > 0 && cfg.Mode != "io" {
 			viol = append(viol, V(k("goroutine-leak"), "after Close these library goroutines are still alive: %v", leaked))
 		} else if cfg.Mode == "io" {
 			// the in-process stdio server shares the scheduler: only client-side sites count
@@ -577,7 +599,8 @@ func c08ServerRelease(tier string, i int) CaseResult {
 		})
 		r.Start()
 		vsched.Quiesce()
-		base := len(libraryThreads(vsched.LiveThreads()))
+		baseThreads := libraryThreads(vsched.LiveThreads())
+		base := len(baseThreads)
 		var peers []*RawPeer
 		for n := 0; n < 2; n++ {
 			rp := NewRawPeer(r)
@@ -601,9 +624,9 @@ func c08ServerRelease(tier string, i int) CaseResult {
 			}
 		}
 		vsched.Quiesce()
-		after := libraryThreads(vsched.LiveThreads())
-		if len(after) > base {
-			viol = append(viol, V(k("goroutine-leak"), "the server ran %d library goroutines before the peers came, %d while they were connected, and still %d after their connections are gone: %v", base, during, len(after), after))
+		after := threadsSince(baseThreads, libraryThreads(vsched.LiveThreads()))
+		if len(after) > 0 {
+			viol = append(viol, V(k("goroutine-leak"), "the server ran %d library goroutines before the peers came, %d while they were connected, and %d more than at the start after their connections are gone: %v", base, during, len(after), after))
 		}
 		if mode == "ls" {
 			// the session of a vanished legacy SSE peer is gone too: a late POST to it is refused
